@@ -67,3 +67,21 @@ def run(res, tier, seed):
         O.first_row_violation(res, dis, 'operator-row-differs',
                               'the operator differs from the model the C05 theorems are about (it is still symmetric / positive on '
                               'everything evaluated)', seed, tier)
+    # ---- the line blocks the smoothers factorise: a sweep of the real smoothers equals the exact block relaxation of A on whole lines
+    #      (K-affine of C06, every block update certified), i.e. the factorised blocks ARE the principal submatrices of A on the lines, which
+    #      inherit symmetry and definiteness; a block that is not (singular, wrong entries) shows as a differing / non-finite sweep ----
+    if not res.violations:
+        import smoother_common as SM
+        cov = dict(res.coverage)
+        outs = SM.run(res, tier, seed, 'smoother')
+        if outs:
+            impl_s, dis_s, levels_s = outs
+            nv = len(res.violations)
+            SM.report(res, dis_s, levels_s, 'smoother', seed, tier)
+            for v in res.violations[nv:]:
+                v['signature'] = 'line-blocks:' + v['signature']
+                v['replay']['why'] = ('the line blocks the smoother factorises are not the principal submatrices of A on its lines '
+                                      '(C05: the line blocks inherit symmetry and positive definiteness)')
+        sm = {k: res.coverage.get(k) for k in ('sweeps_compared', 'properties_evaluated_on_impl')}
+        res.coverage.update(cov)
+        res.coverage['line_block_sweeps'] = sm
